@@ -9,6 +9,8 @@ Statements about `p_shm_new` are for calls that run sequentially (any schedule m
 between them); the lock (`lock_is_mutex`) is proved for every interleaving.  What is FALSE of the
 code — concurrent first-time creation (F11) and the crash point that leaves a zero-size
 segment — is kept as a comment with the negation proved on a concrete witness.
+Schedules also contain `Action.fail t e` (the next system call of `t` fails with `e`, scripted); the section "failing
+system calls" states what the failure exits of `pp_shm_create_handle` / `pp_shm_clean_handle` leave behind.
 -/
 namespace PV.IPC.C07
 open PV.IPC PV.Generated.IPC
@@ -555,6 +557,14 @@ theorem lock_is_mutex (k : ShmKey) (o : ObjId) (g : G) (as : List Action)
           cases a with
           | start t op => simp only [exec]; rw [start_log]; exact ⟨Nat.le_refl _, Nat.le_refl _⟩
           | kill p => exact ⟨Nat.le_refl _, Nat.le_refl _⟩
+          | fail t e =>
+            simp only [exec]
+            cases hc : g.calls t with
+            | none => rw [fail_none g t e hc]; exact ⟨Nat.le_refl _, Nat.le_refl _⟩
+            | some c =>
+              rw [fail_log g t e c hc]
+              simp only [acquired, released, List.filter_cons]
+              constructor <;> split <;> simp
           | step t i =>
             simp only [exec]
             cases hc : g.calls t with
@@ -811,6 +821,94 @@ theorem follower_free_unlinks_lock_false :
     ((lockLostWitness.call 2 (.lock 2)).call 3 (.lock 3)).ret 2 = some .unit ∧
     ((lockLostWitness.call 2 (.lock 2)).call 3 (.lock 3)).ret 3 = some .unit := by decide
 
+/-! ## failing system calls (the failure exits of `pp_shm_create_handle` and the clean-up)
+
+`Action.fail t e` = the system call `t` is about to make is not performed and returns `-1 / errno = e`.  The invariants
+`MapInv`, `KeyInv`, `SegWF`, `SemKeyWF`, `Agree` are preserved by it, so every `…_interleaved` theorem, `lock_is_mutex`,
+`at_most_one_in_critical_section` and `address_freshness` above hold for schedules in which any system call of any call
+fails.  The sequential theorems below (`G.callF`, failure script: index of the system call ↦ errno) say what a failed
+`p_shm_new` leaves behind: exactly what was acquired so far is released — descriptor closed, mapping removed, a name the
+call created itself unlinked again, a name it found untouched — and no handle exists. -/
+
+/-- creator whose `ftruncate` fails: descriptor closed, name unlinked again, no mapping, no handle -/
+theorem creator_ftruncate_failure_is_clean (g : G) (t : Tid) (h : Hid) (k : ShmKey) (size : Nat) (ro : Bool) (e : Errno)
+    (hi : Idle g t) (hh : g.hs h = none) (hk : g.os.shmNames k = none) :
+    let g' := g.callF t (.newShm h k size ro) [(1, e)]
+    g'.os.shmNames k = none ∧ g'.os.semNames = g.os.semNames ∧ g'.hs = g.hs ∧ g'.ret t = some (.fail e) ∧ g'.calls t = none ∧
+    (g'.os.procs (g.pidOf t)).maps = (g.os.procs (g.pidOf t)).maps ∧
+    (g'.os.procs (g.pidOf t)).fds = (g.os.procs (g.pidOf t)).fds.filter (fun x => !decide (x.1 = (g.os.procs (g.pidOf t)).nextFd)) := by
+  have c1 := shmCreat1
+  fail_simp [hi.alive, hi.idle, hh, hk, c1]
+
+/-- creator whose `mmap` fails -/
+theorem creator_mmap_failure_is_clean (g : G) (t : Tid) (h : Hid) (k : ShmKey) (size : Nat) (ro : Bool) (e : Errno)
+    (hi : Idle g t) (hh : g.hs h = none) (hk : g.os.shmNames k = none) :
+    let g' := g.callF t (.newShm h k size ro) [(2, e)]
+    g'.os.shmNames k = none ∧ g'.os.semNames = g.os.semNames ∧ g'.hs = g.hs ∧ g'.ret t = some (.fail e) ∧ g'.calls t = none ∧
+    (g'.os.procs (g.pidOf t)).maps = (g.os.procs (g.pidOf t)).maps ∧
+    (g'.os.procs (g.pidOf t)).fds = (g.os.procs (g.pidOf t)).fds.filter (fun x => !decide (x.1 = (g.os.procs (g.pidOf t)).nextFd)) := by
+  have c1 := shmCreat1
+  fail_simp [hi.alive, hi.idle, hh, hk, c1]
+
+/-- creator whose lock semaphore cannot be created (its `sem_open` fails with anything but EINTR / EEXIST): the mapping is
+    removed (no mapping at the address `mmap` returned), the name is unlinked again, no semaphore name appears -/
+theorem creator_lock_failure_is_clean (g : G) (t : Tid) (h : Hid) (k : ShmKey) (size : Nat) (ro : Bool) (e : Errno)
+    (hi : Idle g t) (hh : g.hs h = none) (hk : g.os.shmNames k = none) (hs : size ≠ 0) (h1 : e ≠ .EINTR) (h2 : e ≠ .EEXIST)
+    (hfresh : ∀ m ∈ (g.os.procs (g.pidOf t)).maps, m.addr ≠ (g.os.procs (g.pidOf t)).nextAddr) :
+    let g' := g.callF t (.newShm h k size ro) [(4, e)]
+    g'.os.shmNames k = none ∧ g'.os.semNames = g.os.semNames ∧ g'.hs = g.hs ∧ g'.ret t = some (.fail e) ∧ g'.calls t = none ∧
+    (g'.os.procs (g.pidOf t)).maps = (g.os.procs (g.pidOf t)).maps := by
+  have c1 := shmCreat1
+  have hm : ∀ l : List Mapping, (∀ m ∈ l, m.addr ≠ (g.os.procs (g.pidOf t)).nextAddr) →
+      (l.flatMap fun m => if m.addr = (g.os.procs (g.pidOf t)).nextAddr then
+          (if pages size ≥ pages m.len then [] else [{ m with addr := m.addr + pages size, off := m.off + pages size * pageSize, len := m.len - pages size * pageSize }])
+        else [m]) = l := by
+    intro l hl
+    induction l with
+    | nil => rfl
+    | cons a l ih =>
+      have ha := hl a (List.mem_cons_self)
+      simp only [List.flatMap_cons, ha, if_false]
+      rw [ih (fun m hm => hl m (List.mem_cons_of_mem _ hm))]; rfl
+  cases e <;> simp at h1 h2 <;>
+    (fail_simp [hi.alive, hi.idle, hh, hk, hs, c1, munmapF]
+     exact hm _ hfresh)
+
+/-- follower whose `fstat` fails: descriptor closed, nothing else changed -/
+theorem follower_fstat_failure_is_clean (g : G) (t : Tid) (h : Hid) (k : ShmKey) (req : Nat) (ro : Bool) (s : SegId) (e : Errno)
+    (hi : Idle g t) (hh : g.hs h = none) (hk : g.os.shmNames k = some s) :
+    let g' := g.callF t (.newShm h k req ro) [(2, e)]
+    g'.os.shmNames = g.os.shmNames ∧ g'.os.segs = g.os.segs ∧ g'.os.semNames = g.os.semNames ∧ g'.hs = g.hs ∧
+    g'.ret t = some (.fail e) ∧ g'.calls t = none ∧ (g'.os.procs (g.pidOf t)).maps = (g.os.procs (g.pidOf t)).maps := by
+  have c1 := shmExcl1
+  have c2 := shmPlain2
+  fail_simp [hi.alive, hi.idle, hh, hk, c1, c2]
+
+/-- an owner's `p_shm_free` whose `munmap` fails: the clean-up goes on, segment name and lock name are removed -/
+theorem owner_free_goes_on_after_munmap_failure (g : G) (t : Tid) (h : Hid) (y : PShm) (s : SegId) (ol : ObjId) (e : Errno) (hi : Idle g t)
+    (hh : g.hs h = some (g.pidOf t, .shm y)) (hc : y.created = true) (hsc : y.sem.created = true)
+    (hk : g.os.shmNames y.key = some s) (hl : g.os.semNames y.sem.key = some ol) :
+    let g' := g.callF t (.free h) [(0, e)]
+    g'.os.shmNames y.key = none ∧ g'.os.semNames y.sem.key = none ∧ g'.hs h = none ∧ g'.calls t = none ∧
+    (g'.os.procs (g.pidOf t)).maps = (g.os.procs (g.pidOf t)).maps := by
+  fail_simp [hi.alive, hi.idle, hh, hc, hsc, hk, hl]
+
+
+/-- non-vacuity: hypotheses are satisfiable (initial state), and the concrete runs -/
+example := creator_ftruncate_failure_is_clean (G.init id) 0 0 0 4096 false .ENOMEM ⟨rfl, rfl⟩ rfl rfl
+example := creator_mmap_failure_is_clean (G.init id) 0 0 0 4096 false .ENOMEM ⟨rfl, rfl⟩ rfl rfl
+example := creator_lock_failure_is_clean (G.init id) 0 0 0 4096 false .EMFILE ⟨rfl, rfl⟩ rfl rfl (by decide) (by decide) (by decide)
+          (by intro m hm; cases hm)
+example : let g := ((G.init id).call 0 (.newShm 0 0 64 false)).callF 1 (.newShm 1 0 16 false) [(2, .EACCES)]
+    g.ret 1 = some (.fail .EACCES) ∧ g.hs 1 = none ∧ g.os.shmNames 0 = some 0 ∧ (g.os.procs 1).maps = [] ∧ (g.os.procs 1).fds = [] := by decide
+example : let g := ((G.init id).call 0 (.newShm 0 0 64 false)).callF 0 (.free 0) [(0, .EINVAL)]
+    g.os.shmNames 0 = none ∧ g.os.semNames (.lock 0) = none ∧ (g.os.procs 0).maps.length = 1 := by decide
+/-- every close site: a failing `close` is only a warning, the call goes on (success at site 4, failure paths at 1-3) -/
+example : ((G.init id).callF 0 (.newShm 0 0 64 false) [(3, .EBADF)]).ret 0 = some (.shm ⟨true, 0, 1, 64, ⟨true, .lock 0, 0, .create, 1⟩, false⟩) ∧
+    ((G.init id).callF 0 (.newShm 0 0 64 false) [(1, .ENOMEM), (2, .EBADF)]).ret 0 = some (.fail .ENOMEM) ∧
+    (((G.init id).callF 0 (.newShm 0 0 64 false) [(1, .ENOMEM), (2, .EBADF)]).os.shmNames 0) = none := by decide
+example := mapInv_reachable id [.start 0 (.newShm 0 0 64 false), .step 0 false, .fail 0 .ENOMEM, .step 0 false, .fail 0 .EACCES]
+
 /-! ### non-vacuity of the interleaved theorems -/
 
 /-- computable form of `NoShmUnlink` -/
@@ -838,6 +936,7 @@ theorem noShmUnlinkB_spec (k : ShmKey) (as : List Action) : ∀ g, noShmUnlinkB 
       exact h1
     | start t op => trivial
     | kill p => trivial
+    | fail t e => trivial
 
 /-- process 0 has created name 0 (64 bytes); then processes 1 and 2 open it (16 bytes / whole segment)
     with their system calls strictly alternating, while process 0 stores a byte in between -/
